@@ -439,6 +439,13 @@ def ionize(rng, mol):
     if acids and bases:  # a donor and an acceptor: `neutralize` has a proton to move
         picked_a = picked_a or [rng.choice(acids)]
         picked_b = picked_b or [rng.choice(bases)]
+        mode = rng.random()
+        if mode < 0.35 and len(bases) >= 2:      # more donors than acceptors (partial neutralisation branch)
+            picked_b = list(bases)
+            picked_a = [rng.choice(acids)]
+        elif mode < 0.6 and len(acids) >= 2:     # more acceptors than donors
+            picked_a = list(acids)
+            picked_b = [rng.choice(bases)]
     if not picked_a and not picked_b:
         return None
     for n in picked_a:
@@ -570,6 +577,8 @@ EXTRA = ['CC(=O)[O-].[NH4+]', 'C[NH3+].[Cl-]', '[Na+].CC(=O)[O-]', 'CC(=O)O.CN',
          'O=C1NC=CC=C1', 'Oc1ccccn1', 'CC(O)=CC', 'CC(=O)CC', 'NC(N)=N', 'OC1=NC(O)=NC=C1', 'C1=CC=C[CH-]1.[Fe+2].C1=CC=C[CH-]1',
          'c1cnc[nH]1', 'c1ccc2[nH]cnc2c1', 'c1cn[nH]c1', 'c1nc[nH]n1', 'O=c1[nH]cnc2nc[nH]c12', 'Cc1cc(C)n[nH]1', 'c1ccc2[nH]nnc2c1',
          'Cc1ncc[nH]1', 'c1ccc(cc1)-c1cnc[nH]1', 'CC(=O)Cc1ccccc1', 'OC1=CC=CC=N1', 'O=C1NC(=O)C=C1', 'N#Cc1ccc2[nH]c(C)c(C)c2c1',
+         '[NH3+]CCCC[C@H]([NH3+])C([O-])=O', '[NH3+]CC[NH3+].[Cl-]', 'C[NH3+].CC[NH3+].CC(=O)[O-]', 'C[NH2+]CCC[NH+](C)C.CC(=O)[O-]',
+         '[NH3+]CC([O-])=O.CC(=O)[O-]', 'C[NH3+].[O-]C(=O)CC([O-])=O', '[NH3+]CC[NH3+].[O-]C(=O)CC([O-])=O', '[NH3+]CC[NH2+]CC[NH3+].[Br-].CC([O-])=O',
          'N#C[Hg]C#N', 'N#C[Zn]C#N', 'N#C[Fe](C#N)C#N', 'N#C[Fe](C#N)(C#N)C#N', 'O=C=N[Zn]N=C=O', '[Cu](N=C=O)N=C=O', 'N#CO[Zn]OC#N',
          'N#CS[Hg]SC#N', 'C[N+](C)(C)[Pt][N+](C)(C)C', 'C[P+](C)(C)[Pt][P+](C)(C)C', 'N#C[Hg]SC#N', 'C[O+](C)[Zn][O+](C)C',
          '[Fe]C#N', 'N#C[Cu]', 'O=C=N[Pd]', 'C[N+](C)(C)[Pt]', '[CH2-][N+]#N', '[N-]=[N+]=NC', 'CN=N#N', '[O-][n+]1ccccc1',
@@ -1200,6 +1209,9 @@ def oracle(ints, op, ft, rng=None, renumber=True):
         if op == 'neutralize':
             if q1 - q0 != h1 - h0:
                 fails.append(('proton-balance', f'charge {q0}->{q1}, H {h0}->{h1}'))
+            elif q1 != q0:
+                # documented default keep_charge=True: protons are moved between sites, never lost or gained
+                fails.append(('net-charge', f'{q0} -> {q1} with keep_charge=True (H {h0} -> {h1})'))
         else:
             if q1 != q0:
                 fails.append(('net-charge', f'{q0} -> {q1}'))
